@@ -13,7 +13,7 @@ import (
 func init() {
 	register(Property{ID: "C14", Level: "other", Run: runC14,
 		Technique: "static analysis: must-pass-through path conditions and loop-shape rules on the SSA of conf.FindPathConf, exhaustive path enumeration of its sort comparator, who-may table of regexp matches on conf.Path.Regexp over the whole module",
-		Text: "Decides on conf.FindPathConf: the exact-name lookup is tested first and shadows every other outcome; the regexp branch is reached only for valid names; the map range that collects candidates has no effect besides appending configurations with Regexp != nil to a local slice (no return, call or break: map order cannot leak); that slice is sorted before the first match is attempted and is not modified afterwards; the comparator, on every path, puts all/all_others last and otherwise orders by Name ascending; the match loop runs from index 0 upwards and returns the first element whose Regexp.FindStringSubmatch(name) is non-nil together with that very result; any other exit is an error. Across the module only FindPathConf (and the recording-directory lister) match names against conf.Path.Regexp. Does not decide regexp semantics nor sort.Slice.",
+		Text: "Decides on conf.FindPathConf: the exact-name lookup is tested first and shadows every other outcome; the regexp branch is reached only for valid names; the map range that collects candidates has no effect besides appending configurations with Regexp != nil to a local slice (no return, call or break: map order cannot leak); that slice is sorted before the first match is attempted and is not modified afterwards; the comparator, on every path, puts all/all_others last and otherwise orders by Name ascending; the match loop runs from index 0 upwards and returns the first element whose Regexp.FindStringSubmatch(name) is non-nil together with that very result; any other exit is an error. Across the module only FindPathConf (and the recording-directory lister) match names against conf.Path.Regexp; and no caller of FindPathConf remembers a result (configuration, capture groups or a value read from them) in a field, map or package variable that survives a replacement of the configuration set it was computed from - except the fields of a live path, which the path manager re-resolves on every reload (C15) - so the server's effective resolution is FindPathConf on the current set and does not depend on earlier lookups. Does not decide regexp semantics nor sort.Slice, nor retention through interfaces/reflection or inside functions that are not new helpers.",
 		Note: "trusted: sort.Slice sorts by the comparator, regexp semantics; configuration names are unique map keys and at most one of all/all_others/~^.*$ exists (Conf.Validate)"})
 	addMutants(
 		Mutant{"C14", "drop-sort", "internal/conf/path.go",
@@ -40,6 +40,12 @@ func init() {
 			"		if pathConf.Regexp != nil {\n			if m := pathConf.Regexp.FindStringSubmatch(name); m != nil && len(pathConfs) < 3 {\n				return pathConf, m, nil\n			}\n			regexpPathConfs = append(regexpPathConfs, pathConf)\n		}", "C14.collect_loop"},
 		Mutant{"C14", "groups-of-other-string", "internal/conf/path.go",
 			"m := pathConf.Regexp.FindStringSubmatch(name)\n		if m != nil {\n			return pathConf, m, nil", "m := pathConf.Regexp.FindStringSubmatch(pathConf.Name)\n		if m != nil {\n			return pathConf, m, nil", "C14.first_match"},
+		Mutant{"C14", "describe-memoises-resolution", "internal/core/path_manager.go",
+			"func (pm *pathManager) doDescribe(req defs.PathDescribeReq) {\n	pathConf, pathMatches, err := conf.FindPathConf(pm.pathConfs, req.AccessRequest.Name)\n",
+			"var describeMemo = map[string]*conf.Path{}\n\nfunc (pm *pathManager) doDescribe(req defs.PathDescribeReq) {\n	pathConf, pathMatches, err := conf.FindPathConf(pm.pathConfs, req.AccessRequest.Name)\n	if memo, ok := describeMemo[req.AccessRequest.Name]; ok && pathMatches == nil {\n		pathConf = memo\n	} else if err == nil {\n		describeMemo[req.AccessRequest.Name] = pathConf\n	}\n", "C14.no_stale_resolution"},
+		Mutant{"C14", "playback-remembers-resolution", "internal/playback/server.go",
+			"func (s *Server) safeFindPathConf(name string) (*conf.Path, error) {\n	s.mutex.RLock()\n	defer s.mutex.RUnlock()\n\n	pathConf, _, err := conf.FindPathConf(s.PathConfs, name)\n	return pathConf, err",
+			"var resolvedPathConfs sync.Map\n\nfunc (s *Server) safeFindPathConf(name string) (*conf.Path, error) {\n	if cached, ok := resolvedPathConfs.Load(name); ok {\n		return cached.(*conf.Path), nil\n	}\n\n	s.mutex.RLock()\n	defer s.mutex.RUnlock()\n\n	pathConf, _, err := conf.FindPathConf(s.PathConfs, name)\n	if err == nil {\n		resolvedPathConfs.Store(name, pathConf)\n	}\n	return pathConf, err", "C14.no_stale_resolution"},
 		Mutant{"C14", "second-resolver-in-playback", "internal/playback/server.go",
 			"	pathConf, _, err := conf.FindPathConf(s.PathConfs, name)\n	return pathConf, err",
 			"	for _, pc := range s.PathConfs {\n		if pc.Regexp != nil && pc.Regexp.MatchString(name) {\n			return pc, nil\n		}\n	}\n	pathConf, _, err := conf.FindPathConf(s.PathConfs, name)\n	return pathConf, err", "C14.who_matches"},
@@ -57,11 +63,14 @@ func runC14(c *Ctx) {
 	c.Explain = "E1 (must-pass-through on the SSA CFG) on conf.FindPathConf: exact_first (map hit pathConfs[name] returned with nil groups under ok; every other return passes !ok), valid_for_regexp (non-hit success ⇒ IsValidPathName(name)==nil), rejected_otherwise (error returns carry no configuration; the final error follows loop exhaustion); " +
 		"collect_loop (the range over the map: body contains only the Regexp != nil test and append of the ranged value; no return/call/break); sorted_before_match (sort.Slice on the collected slice precedes every FindStringSubmatch; no store to the slice after the range loop); " +
 		"comparator (all entry→exit paths of the closure enumerated: i∈{all,all_others} ⇒ false, else j∈{…} ⇒ true, else Name[i] < Name[j]); first_match (index loop from 0 step +1 over the sorted slice; success return is the current element with its own FindStringSubmatch(name) result, guarded by != nil); " +
-		"who_matches (E2: regexp matches on conf.Path.Regexp in the module are a closed table). NOT decided: regexp semantics, sort.Slice, uniqueness of names (map keys)."
+		"who_matches (E2: regexp matches on conf.Path.Regexp in the module are a closed table); no_stale_resolution (E5, per call of conf.FindPathConf in the module: forward data flow of results #0/#1 and of what is read from them, through locals, fresh objects, new helpers, returns to static callers and closure bindings; a Store / MapUpdate / sync.Map.Store into non-local memory is allowed only for core.path.conf/confName/matches (re-resolved by doReloadConf, C15) or for a container that every function storing the struct field the first argument was loaded from empties - clear() or reassignment - before each of its returns). NOT decided: regexp semantics, sort.Slice, uniqueness of names (map keys)."
 	c.Assume = []string{
 		"sort.Slice orders the slice according to the comparator",
 		"configuration names are distinct (map keys; Path.validate stores the key into Name) and Conf.Validate rejects more than one of all/all_others/~^.*$",
 	}
+	// the consumers resolve on the current configuration set: no result is remembered (prop_r3_c14.go)
+	c14NoStaleResolution(c, p)
+
 	fn := c.fn(p, "internal/conf", "", "FindPathConf")
 	if fn == nil {
 		return
